@@ -137,6 +137,17 @@ func obligationQuery(o *Obligation) (string, string) {
 		}
 		if len(terms) > 0 {
 			budget := 1500 + 40*len(o.Gen.S.instTerms)
+			// the antecedent of an implication goal is a hypothesis of the query too (the query asserts guard, antecedent and
+			// the negated consequent): its quantified conjuncts get the same goal-directed instances as the unit's assumptions
+			for _, a := range goalAntecedents(g) {
+				if !strings.Contains(a, "(forall ((|q!") {
+					continue
+				}
+				// ... and at the index terms the contract names with witness(...)
+				for _, inst := range groundInstances(a, append(append([]string{}, terms...), o.Gen.S.witTerms...), ctxTerms, &budget) {
+					extra = append(extra, "(assert "+inst+")")
+				}
+			}
 			for _, a := range o.Gen.S.asserts {
 				if !strings.Contains(a, "(forall ((|q!") && !strings.Contains(a, "(forall ((j Int))") {
 					continue
@@ -192,6 +203,9 @@ func obligationQuery(o *Obligation) (string, string) {
 		sort.SliceStable(cs, func(i, j int) bool { return len(cs[i]) < len(cs[j]) })
 		if len(cs) > 40 {
 			cs = cs[:40]
+		}
+		if o.Gen != nil {
+			cs = append(cs, o.Gen.S.witTerms...) // witnesses the contract names explicitly
 		}
 		g = expandGoalExists(g, cs)
 		q = and(o.Guard, not(g))
@@ -502,4 +516,29 @@ func runCmdCtx(ctx context.Context, timeout time.Duration, args []string) (strin
 	cmd.Stderr = &buf
 	err := cmd.Run()
 	return buf.String(), err
+}
+
+// goalAntecedents returns the conjuncts A1..An of a goal (=> (and A1 .. An) B), looking through nested implications.
+func goalAntecedents(g string) []string {
+	var out []string
+	for depth := 0; depth < 4; depth++ {
+		parts := splitSexp(g)
+		if len(parts) != 3 || parts[0] != "=>" {
+			break
+		}
+		var flat func(a string)
+		flat = func(a string) {
+			ps := splitSexp(a)
+			if len(ps) > 1 && ps[0] == "and" {
+				for _, c := range ps[1:] {
+					flat(c)
+				}
+				return
+			}
+			out = append(out, a)
+		}
+		flat(parts[1])
+		g = parts[2]
+	}
+	return out
 }
